@@ -15,6 +15,7 @@ EXPLANATION = (
     '(R5, shared with C15.R5) events still queued when the simulation is dropped are released: every bucket list pops until empty and the buckets are emptied before the allocator goes. '
     '(R3 also: the statics guard releases on every path of its Drop, also while unwinding; R6, shared with C16.R2) the drop thunk releases the boxed value whenever the pointer is non-null. '
     '(R7) no task future or future-producing closure owns a strong handle to its own module. '
+    '(R8) timer futures (Sleep, Timeout, Interval) store no Waker. '
     "Decides these necessary conditions only; not exactly-once destruction over generated simulations.")
 ASSUMPTIONS = ["Arc/Rc free their content when the last strong reference is dropped", "cycles through dyn Module / user state are out of reach"]
 
